@@ -17,10 +17,12 @@ package combinator
 //@ ghost saved(l RollbackLexer, i int) int
 //@ ghost total(p Parser) bool
 // The current token's span and error flag as the lexer reports them (they change with the position).
+//@ ghost inlen(l RollbackLexer) int
 //@ ghost curFrom(l RollbackLexer) int
 //@ ghost curTo(l RollbackLexer) int
 //@ ghost curErr(l RollbackLexer) bool
 //@ pred linv(l RollbackLexer) bool := l != nil && depth(l) >= 0 && -1 <= pos(l) && pos(l) <= cached(l) - 1
+//@     && (pos(l) >= 0 ==> 0 <= curFrom(l) && curFrom(l) <= curTo(l) && curTo(l) <= inlen(l))   // the span the lexer reports lies inside the input
 //@     && (forall i :: 0 <= i && i < depth(l) ==> -1 <= saved(l, i) && saved(l, i) <= cached(l) - 1)
 //@ pred savedKept(l RollbackLexer, n int) bool := forall i :: 0 <= i && i < n ==> saved(l, i) == old(saved(l, i))
 //
@@ -140,6 +142,7 @@ package combinator
 // C06: when the input ends or the scanner reports an error, the parser's error carries exactly the
 // span the lexer reports for it (a span inside the input, by the scanner's contract).
 //@   ensures[lexer_error_span;C06] result1 != nil && (pos(input) == old(pos(input)) || curErr(input)) ==> result1.from == curFrom(input) && result1.to == curTo(input)
+//@       && 0 <= result1.from && result1.from <= result1.to && result1.to <= inlen(input)
 //
 //@ func Fmap$1 [C13,C06] implements Parser
 //@   requires[not_total] !total(self)   // only parsers built by Ok() are marked total
